@@ -447,7 +447,7 @@ func checkRefsStore(s *gkvlite.Store) string {
 }
 
 func checkC05(rep *Report, rng *Rng, tier string) {
-	rounds, millis := 36, 180
+	rounds, millis := 48, 150
 	if tier == "thorough" {
 		rounds, millis = 400, 400
 	}
